@@ -591,3 +591,64 @@ def rule_alloc(progs, tier, scope=r"^jq::", name="ALLOC"):
                     res.bad("%s:%s:%s" % (name, f.id, sink[0].rsplit("::", 1)[-1]), "%s passes a size derived from a runtime number to %s with no dominating try_reserve / checked_* / bound test: an absurd count aborts the process (capacity overflow panic or allocation failure)" % (f.id, sink[0]), f.loc(c.line))
         res.ok({"tainted_sinks": n_sinks})
     return out
+
+
+# ------------------------------------------------------------------------------------------
+def rule_fallback(progs, tier, functions=(), fallback=r"(^|::)jq::eval_generic::eval_on_owned$|^jq::eval::eval\w*$", name="FALLBACK"):
+    """In the generic evaluator's dispatch functions the catch-all edge of the switch on the
+    `Expr` / `Builtin` discriminant must reach the full evaluator (directly or through the
+    `eval_on_owned` bridge) on every path to a return: a construct the generic evaluator does
+    not implement natively is delegated, never answered with a default value or a generic
+    'unsupported' error."""
+    out = []
+    for cfg, P in progs.items():
+        res = RuleResult(name, cfg)
+        out.append(res)
+        for fid, enum_re in functions:
+            fs = P.find(fid)
+            if len(fs) != 1:
+                res.bad("%s:%s" % (name, fid), "dispatch function %s not found (anchor missing)" % fid)
+                continue
+            f = fs[0]
+            defs = local_defs(f)
+            succ = f.successors(True)
+            live = f.reachable_blocks(True)
+            # the dispatch switch: first live switch whose operand is the discriminant of a value of the enum type
+            disp = None
+            for bi in sorted(live):
+                t = f.blocks[bi]["t"]
+                if t[0] != "switch":
+                    continue
+                pl = op_place(t[1])
+                if pl is None:
+                    continue
+                ds = [d for d in defs.get(pl[0], []) if d[1] == "rv" and d[2][0] == "disc"]
+                if not ds:
+                    continue
+                src = ds[0][2][1]
+                ty = f.locals[src[0]]
+                if re.search(enum_re, ty) and len(t[2]) >= 8:
+                    disp = (bi, t)
+                    break
+            if disp is None:
+                res.bad("%s:%s" % (name, fid), "no dispatch switch over %s found in %s (idiom not recognised: fail closed)" % (enum_re, fid), f.loc())
+                continue
+            bi, t = disp
+            other = t[3]
+            listed = {tg for _, tg in t[2]}
+            fb_blocks = set()
+            for c in f.calls:
+                if re.search(fallback, c.name):
+                    fb_blocks.add(c.bb)
+            if f.blocks[other]["t"][0] == "unreach":
+                res.ok({"fn": f.id, "dispatch": "exhaustive match (no catch-all edge)", "arms": len(t[2])})
+                continue
+            reach = reachable_from(f, other, succ, avoid=fb_blocks)
+            escapes = [b for b in reach if f.blocks[b]["t"][0] == "ret"]
+            if other in fb_blocks:
+                escapes = []
+            if escapes:
+                res.bad("%s:%s" % (name, f.id), "the catch-all arm of %s's dispatch over %s can return without calling the full evaluator (%s): constructs it does not implement natively are not delegated" % (f.id, enum_re, fallback), f.loc(f.blocks[other]["l"]))
+            else:
+                res.ok({"fn": f.id, "native_arms": len(t[2]), "catch_all": "every path to a return passes the full evaluator", "fallback_calls": len(fb_blocks)})
+    return out
